@@ -11,6 +11,7 @@ import (
 	"fmt"
 	"go.dedis.ch/kyber/v4/util/key"
 	"os"
+	"strings"
 	"sync"
 	"sync/atomic"
 
@@ -427,6 +428,55 @@ func raceSchemeScenarios() []raceScenario {
 				return rmar(b1) + rmar(b2) + rmar(e) + rmar(s.GT().Point().Null()) + rsmar(s.G1().Scalar().One())
 			}
 			return func() string { return f(s) }, f(w)
+		}})
+	}
+	// suites whose hash-to-curve tags were configured by the caller (lengths that are and are not allocation
+	// size classes, tags handed over in a buffer with spare capacity): hashing and BLS on the shared suite
+	for _, pn := range []string{"bn254", "kilic"} {
+		pn := pn
+		if freshPairing(pn) == nil {
+			continue
+		}
+		out = append(out, raceScenario{"pairing-" + pn, "Hash/BLS on a suite with configured tags", pn, func() (func() string, string) {
+			mk := func() []pairing.Suite {
+				var ss []pairing.Suite
+				for _, l := range []int{1, 16, 20, 33, 43, 51, 100} {
+					d1 := make([]byte, l, l+24)
+					d2 := make([]byte, l, l+24)
+					for i := range d1 {
+						d1[i], d2[i] = byte('a'+i%26), byte('A'+i%26)
+					}
+					switch pn {
+					case "bn254":
+						s := bn254.NewSuite()
+						s.SetDomainG1(d1)
+						s.SetDomainG2(d2)
+						ss = append(ss, s)
+					case "kilic":
+						ss = append(ss, kilic.NewBLS12381SuiteWithDST(d1, d2))
+					}
+				}
+				return ss
+			}
+			f := func(ss []pairing.Suite) string {
+				var sb strings.Builder
+				for _, s := range ss {
+					h1, ok1 := s.G1().Point().(kyber.HashablePoint)
+					if ok1 {
+						sb.WriteString(rmar(h1.Hash(msg)))
+					}
+					if h2, ok := s.G2().Point().(kyber.HashablePoint); ok {
+						sb.WriteString(rmar(h2.Hash(msg)))
+					}
+					scheme := bls.NewSchemeOnG1(s)
+					priv, pub := scheme.NewKeyPair(kc.NewRng(29))
+					sig, err := scheme.Sign(priv, msg)
+					sb.WriteString(kc.HexB(sig) + fmt.Sprint(err == nil && scheme.Verify(pub, msg, sig) == nil))
+				}
+				return sb.String()
+			}
+			shared, sep := mk(), mk()
+			return func() string { return f(shared) }, f(sep)
 		}})
 	}
 	// BDN mask clone on a shared mask
